@@ -1,4 +1,5 @@
 import datetime as dt
+from decimal import Decimal
 from mindsdb_sql.parser.ast.base import ASTNode
 from mindsdb_sql.parser.utils import indent
 
@@ -21,9 +22,22 @@ class Constant(ASTNode):
             out_str = 'TRUE' if self.value else 'FALSE'
         elif isinstance(self.value, (dt.date, dt.datetime, dt.timedelta)):
             out_str = "'{}'".format(str(self.value).replace("'", "''"))
+        elif isinstance(self.value, float):
+            out_str = float_to_str(self.value)
         else:
             out_str = str(self.value)
         return out_str
+
+
+def float_to_str(value):
+    # the grammars have no exponent form for numbers (1e-05 was printed as is and read back as `1e - 05`):
+    # print the shortest repr in positional notation, keeping it a FLOAT literal
+    text = repr(value)
+    if 'e' in text or 'E' in text:
+        text = format(Decimal(text), 'f')
+        if '.' not in text:
+            text += '.0'
+    return text
 
 
 class NullConstant(Constant):
